@@ -170,7 +170,13 @@ class C13(core.Check):
                     res.count('variant-dropped', len(out['dropped']))
                 fails_all += out['fails']
                 evals += out['evals']
-            if fails_all:
+            # failures at a degenerate window of 1 are reported apart (params.window = '1'), so that a known finding about
+            # them does not cover the indicator at ordinary windows
+            groups = [([fl for fl in fails_all if not indlib.window1(fl['kw'])], None),
+                      ([fl for fl in fails_all if indlib.window1(fl['kw'])], '1')]
+            for fails_all, win in groups:
+                if not fails_all:
+                    continue
                 # one failure per indicator: the set of fields that are not prefix-stable pins the mechanism
                 flds = sorted({fn for fl in fails_all for fn in fl['fields']})
                 first = fails_all[0]
@@ -182,11 +188,11 @@ class C13(core.Check):
                                       'field': fn0, 'candles': first['candles']},
                             'observed': {'prefix_value': d0['prefix_value'], 'row': d0['row']},
                             'expected': {'full_value': d0['full_value']},
-                            'params': {'indicator': name, 'fields': ','.join(flds)},
+                            'params': dict({'indicator': name, 'fields': ','.join(flds)}, **({'window': win} if win else {})),
                             'metrics': {'first_row': min(d['row'] for fl in fails_all for d in fl['fields'].values()),
                                         'cases_failing': len(fails_all)},
                             'how': f'{name}(c[:k], sequential=True)[row] != {name}(c, sequential=True)[row]'})
-            elif len(res.samples) < 3 and evals:
+            if not any(g for g, _ in groups) and len(res.samples) < 3 and evals:
                 res.sample({'indicator': name, 'variants': [str(v) for v in plan[name]][:3], 'prefix_comparisons': evals})
         for name, l in sorted(crashed.items()):
             res.notes.append(f'{name}: the interpreter died on a prefix shorter than the look-back (no result to compare): ' + '; '.join(l)[:300])
